@@ -262,6 +262,11 @@ Local Transparent N.mul N.add N.modulo N.div N.ltb N.leb.
 (* ---------------------------------------------------------------------------
    get_sel_entry against the device: either no log change interferes and the record
    comes back whole, or the adversary strikes and the loop ends with 0xC5 *)
+(* the record bytes carried by a successful Get SEL Entry reply (cc, next id LE16, data) *)
+Definition reply_data (x : request * reply) : list N :=
+  match snd x with RBytes (0 :: _ :: _ :: dat) => dat | _ => [] end.
+Definition got (t : list (request * reply)) : list N := flat_map reply_data t.
+
 Section Inner.
   Variables (resv rid nx : N) (rc : list N) (e_rc : selentry).
   Hypothesis Hresv1 : 1 <= resv.
@@ -290,7 +295,7 @@ Section Inner.
     (Z.to_nat (if (maxlen =? 0xff)%Z then 18 else maxlen - Z.of_N (sd_limit s)) + (16 - length acc) + 1 <= fuel)%nat ->
     exists out s' t,
       exec (get_entry_loop fuel resv rid maxlen acc) sel_dev s = (out, s', t) /\ Forall is_get t /\
-      ((out = Ok (e_rc, nx) /\ quiet s s') \/
+      ((out = Ok (e_rc, nx) /\ quiet s s' /\ acc ++ got t = rc) \/
        (out = Err (CCError 0xc5) /\ exists e, cancelled s s' e)).
   Proof.
     induction fuel as [|fuel IH]; intros s maxlen acc Hready Hacc Hk Hphase Hfuel; [lia|].
@@ -332,7 +337,8 @@ Section Inner.
           rewrite Hdec. unfold exec. cbn [run].
           eexists _, _, _. split; [reflexivity|]. split.
           { constructor; [|constructor]. exists 0, 255%Z. reflexivity. }
-          left. split; [reflexivity | exact Hq].
+          left. split; [reflexivity|]. split; [exact Hq|].
+          unfold got. cbn [flat_map reply_data snd le_bytes app]. rewrite app_nil_r. exact Hs.
         * (* refused: continue with 16 *)
           cbn [dec_get_entry N.eqb Pos.eqb CC_CANT_RET negb].
           change (255 =? 255)%Z with true. cbn match.
@@ -346,8 +352,8 @@ Section Inner.
             destruct Hlim1 as [[? ?]|?]; [|contradiction]. lia. }
           rewrite He. eexists _, _, _. split; [reflexivity|]. split.
           { constructor; [|exact Ht]. exists 0, 255%Z. reflexivity. }
-          destruct Hres as [[Ho Hq2]|[Ho [e Hc]]].
-          { left. split; [exact Ho | eapply quiet_trans; eassumption]. }
+          destruct Hres as [(Ho & Hq2 & Hg)|[Ho [e Hc]]].
+          { left. split; [exact Ho|]. split; [eapply quiet_trans; eassumption|]. exact Hg. }
           { right. split; [exact Ho|]. exists e. eapply quiet_cancelled; eassumption. }
       + (* partial reads *)
         assert (Hmx : (maxlen =? 255)%Z = false) by lia.
@@ -372,8 +378,8 @@ Section Inner.
             destruct (Z.eqb_spec (maxlen - 1) 255); lia. }
           rewrite He. eexists _, _, _. split; [reflexivity|]. split.
           { constructor; [|exact Ht]. exists off, ln. reflexivity. }
-          destruct Hres as [[Ho Hq2]|[Ho [e Hc]]].
-          { left. split; [exact Ho | eapply quiet_trans; eassumption]. }
+          destruct Hres as [(Ho & Hq2 & Hg)|[Ho [e Hc]]].
+          { left. split; [exact Ho|]. split; [eapply quiet_trans; eassumption|]. exact Hg. }
           { right. split; [exact Ho|]. exists e. eapply quiet_cancelled; eassumption. }
         * destruct (N.ltb_spec 16 (off + Z.to_N ln)) as [?|_]; [lia|].
           rewrite dec_get_entry_ok by assumption.
@@ -391,7 +397,9 @@ Section Inner.
             rewrite firstn_all2 by lia. rewrite Hdec. unfold exec. cbn [run].
             eexists _, _, _. split; [reflexivity|]. split.
             { constructor; [|constructor]. exists off, ln. reflexivity. }
-            left. split; [reflexivity | exact Hq]. }
+            left. split; [reflexivity|]. split; [exact Hq|].
+            unfold got. cbn [flat_map reply_data snd le_bytes app]. rewrite app_nil_r.
+            rewrite Hs. replace (length acc + Z.to_nat ln)%nat with 16%nat by lia. apply firstn_all2. lia. }
           { destruct (IH s1 maxlen (firstn (length acc + Z.to_nat ln) rc)) as (out & s' & t & He & Ht & Hres).
             { repeat split; assumption. }
             { rewrite Hl2. reflexivity. }
@@ -400,18 +408,19 @@ Section Inner.
             { rewrite Hl2, HL. rewrite Hmx in *. lia. }
             rewrite He. eexists _, _, _. split; [reflexivity|]. split.
             { constructor; [|exact Ht]. exists off, ln. reflexivity. }
-            destruct Hres as [[Ho Hq2]|[Ho [e Hc]]].
-            { left. split; [exact Ho | eapply quiet_trans; eassumption]. }
+            destruct Hres as [(Ho & Hq2 & Hg)|[Ho [e Hc]]].
+            { left. split; [exact Ho|]. split; [eapply quiet_trans; eassumption|].
+              unfold got in *. cbn [flat_map reply_data snd le_bytes app]. rewrite app_assoc, Hs. exact Hg. }
             { right. split; [exact Ho|]. exists e. eapply quiet_cancelled; eassumption. } }
   Qed.
 
   Lemma get_sel_entry_spec : forall fuel s, (40 <= fuel)%nat -> ready s ->
     exists out s' t,
       exec (get_sel_entry fuel rid resv) sel_dev s = (out, s', t) /\ Forall is_get t /\
-      ((out = Ok (e_rc, nx) /\ quiet s s') \/
+      ((out = Ok (e_rc, nx) /\ quiet s s' /\ got t = rc) \/
        (out = Err (CCError 0xc5) /\ exists e, cancelled s s' e)).
   Proof.
-    intros fuel s Hf Hr. unfold get_sel_entry. apply inner_loop; try assumption.
+    intros fuel s Hf Hr. unfold get_sel_entry. apply (inner_loop fuel s 255%Z []); try assumption.
     - reflexivity.
     - cbn. lia.
     - left. split; reflexivity.
@@ -511,7 +520,7 @@ Proof.
     destruct (get_sel_entry_spec resv next 0xffff r (entry_of r) Hr1 Hr2 Hnextlt ltac:(lia)
                 (proj1 Hrok) Hdec 40%nat s ltac:(lia)) as (out & s' & t & He & _ & Hres0).
     { repeat split; assumption. }
-    destruct Hres0 as [[-> Hq]|[_ [e Hc]]].
+    destruct Hres0 as [(-> & Hq & _)|[_ [e Hc]]].
     + erewrite exec_bind_ok; [| exact He | cbn; reflexivity].
       eexists _, _. split; [reflexivity | exact Hq].
     + destruct Hc as (_&_&_&_&Hc). rewrite Hpl in Hc. discriminate.
@@ -538,7 +547,7 @@ Proof.
     destruct (get_sel_entry_spec resv next (rec_id r') r (entry_of r) Hr1 Hr2 Hnextlt Hid'1
                 (proj1 Hrok) Hdec 40%nat s ltac:(lia)) as (out & s1 & t1 & He & _ & Hres0).
     { repeat split; assumption. }
-    destruct Hres0 as [[-> Hq]|[_ [e Hc]]].
+    destruct Hres0 as [(-> & Hq & _)|[_ [e Hc]]].
     + destruct Hq as (Hq1 & Hq2 & Hq3 & Hq4 & Hq5 & Hq6).
       destruct (IH fuel s1 (pre ++ [r]) r' (rec_id r') resv (acc ++ [entry_of r])) as (s' & t' & He' & Hq').
       * rewrite Hq1, Hlog, <- app_assoc. reflexivity.
@@ -646,7 +655,7 @@ Definition atomic_trace (rid : N) (rc : list N) (t : list (request * reply)) : P
   exists t0 R gets,
     t = t0 ++ (reserve_req, RBytes (0 :: le_bytes 2 R)) :: gets
            ++ [(delete_req R rid, RBytes (0 :: le_bytes 2 (rec_id rc)))]
-    /\ Forall (is_get R rid) gets.
+    /\ Forall (is_get R rid) gets /\ got gets = rc.
 
 Lemma atomic_trace_prefix rid rc p t : atomic_trace rid rc t -> atomic_trace rid rc (p ++ t).
 Proof.
@@ -735,7 +744,7 @@ Proof.
   destruct (get_sel_entry_spec R rid nx1 rc (entry_of rc) (proj1 HR) (proj2 HR) Hrid Hnx1
               (proj1 Hrok) Hdec 40%nat s1 ltac:(lia)) as (out & s2 & t2 & Hget & Hgets & Hcase).
   { repeat split; try reflexivity; [exact Hlk1 | subst s1; cbn; rewrite Hlim0; exact Hlim]. }
-  destruct Hcase as [[-> Hq2]|[-> [e Hc2]]].
+  destruct Hcase as [(-> & Hq2 & Hgot)|[-> [e Hc2]]].
   - (* read complete *)
     pose proof (exec_on_cancel_ok _ _ _ _ _ _ Hget) as Hoc.
     destruct Hq2 as (Q1&Q2&Q3&Q4&Q5&Q6).
@@ -785,7 +794,7 @@ Proof.
         reflexivity.
       * cbn [sd_log sd_deleted sd_plan]. split; [congruence|]. split; [congruence|].
         split; [rewrite Hpl0; congruence|].
-        exists [], R, t2. split; [|exact Hgets]. cbn [app]. rewrite ?app_nil_r. reflexivity.
+        exists [], R, t2. split; [|split; [exact Hgets | exact Hgot]]. cbn [app]. rewrite ?app_nil_r. reflexivity.
   - (* cancelled during the read: both steps are repeated *)
     pose proof (exec_on_cancel_c5 _ _ _ _ _ Hget) as Hoc.
     destruct Hc2 as (C1&C2&C3&C4&C5).
